@@ -265,6 +265,12 @@ fn run_cli(build: Build, route: u8, src: &str, feed: &[u16], dir: &proc::TempDir
             filename = "<eval>".to_string();
             run.args = vec!["--eval".into(), src.into()];
         }
+        3 => {
+            // a script path that is not a regular file: the text arrives through a pipe
+            filename = "/dev/stdin".to_string();
+            run.args = vec!["/dev/stdin".into()];
+            run.stdin = proc::StdinPlan::Pipe(vec![proc::Chunk { bytes: src.as_bytes().to_vec(), pause_ms: 0 }]);
+        }
         _ => {
             filename = "<stdin>".to_string();
             run.args = vec!["-".into()];
@@ -287,7 +293,7 @@ fn run_cli(build: Build, route: u8, src: &str, feed: &[u16], dir: &proc::TempDir
     proc::run(&run).ok().map(|o| (o, filename))
 }
 
-const ROUTES: [&str; 3] = ["file", "--eval", "stdin"];
+const ROUTES: [&str; 4] = ["file", "--eval", "stdin", "file=/dev/stdin (pipe)"];
 
 fn check_cli(ctx: &mut ShardCtx, spec: &ProgSpec, builds: &[Build]) -> Outcome {
     let src = spec.source();
@@ -302,7 +308,7 @@ fn check_cli(ctx: &mut ShardCtx, spec: &ProgSpec, builds: &[Build]) -> Outcome {
     let input = json!({"kind": "cli", "prog": spec.to_json(), "source": src});
     let mut first: Option<(Vec<u8>, proc::End)> = None;
     for &build in builds {
-        for route in 0..3u8 {
+        for route in 0..4u8 {
             let Some((out, filename)) = run_cli(build, route, &src, &spec.feed, &dir) else {
                 ctx.inconclusive += 1;
                 return Outcome::Discard("cannot spawn naija");
@@ -523,7 +529,7 @@ impl Check for C14 {
         "Programs: `general` profile (accepted, incl. planted runtime errors and warnings) and C09-injected variants (statically \
          rejected); a quarter carry a leading filler (comment or printed string) that makes the text longer than 8, 16 or 24 KiB \
          with 2-, 3- or 4-byte characters across that offset, and a third of the stdin runs deliver the text in several writes \
-         that may split characters. (a) Each program is run through the real binary by file, --eval and stdin in the dev build (and, for a \
+         that may split characters. (a) Each program is run through the real binary by file, --eval, stdin and by a script path that is a pipe (/dev/stdin) in the dev build (and, for a \
          sample, the release build) and through the library pipeline with three separate fresh arenas using the same file \
          name: stdout must be byte-identical to rendered resolver warnings + shout lines + rendered runtime diagnostics, the \
          exit status 0 iff no error-level diagnostic, never a signal. (b) Histories: 1..4 programs, an order of 1..8 runs \
